@@ -75,11 +75,12 @@ Switches::SwitchOption Switches::ByIndex(size_t switch_index) {
 Switches::SwitchOption Switches::Cycle(const SwitchOption& current) {
   if (auto options = As<ConfigList>(current.the_switch->Get("options"))) {
     size_t next_option_index = (current.option_index + 1) % options->size();
-    if (next_option_index != current.option_index) {
+    auto next_option = options->GetValueAt(next_option_index);
+    if (next_option && next_option_index != current.option_index) {
       return {
           current.the_switch,
           current.type,
-          options->GetValueAt(next_option_index)->str(),
+          next_option->str(),
           current.reset_value,
           current.switch_index,
           next_option_index,
@@ -95,10 +96,13 @@ Switches::SwitchOption Switches::Reset(const SwitchOption& current) {
     if (default_state >= options->size() ||
         default_state == current.option_index)
       return {};
+    auto default_option = options->GetValueAt(default_state);
+    if (!default_option)
+      return {};
     return {
         current.the_switch,
         current.type,
-        options->GetValueAt(default_state)->str(),
+        default_option->str(),
         current.reset_value,
         current.switch_index,
         default_state,
@@ -112,8 +116,11 @@ Switches::SwitchOption Switches::FindRadioGroupOption(
     function<FindResult(SwitchOption option)> callback) {
   if (auto options = As<ConfigList>(the_switch->Get("options"))) {
     for (size_t j = 0; j < options->size(); ++j) {
+      auto option_name = options->GetValueAt(j);
+      if (!option_name)
+        continue;
       SwitchOption option{
-          the_switch, kRadioGroup, options->GetValueAt(j)->str(),
+          the_switch, kRadioGroup, option_name->str(),
           0,  // unknown
           0,  // unknown
           j,
@@ -148,13 +155,19 @@ StringSlice Switches::GetStateLabel(an<ConfigMap> the_switch,
     auto abbrev = As<ConfigList>(the_switch->Get("abbrev"));
     if (abbrev && abbrev->size() > state_index) {
       auto value = abbrev->GetValueAt(state_index);
+      if (!value)
+        return {nullptr, 0};
       return {value->str().c_str(), value->str().length()};
     } else {
       auto value = states->GetValueAt(state_index);
+      if (!value)
+        return {nullptr, 0};
       return {value->str().c_str(), first_unicode_byte_length(value->str())};
     }
   } else {
     auto value = states->GetValueAt(state_index);
+    if (!value)
+      return {nullptr, 0};
     return {value->str().c_str(), value->str().length()};
   }
 }
